@@ -55,8 +55,14 @@ pub fn child(a: &Args) -> i32 {
     let nested_n = a.num("nested", 0) as usize;
     let mut e = crate::eng::Eng::new();
     e.timeout = std::time::Duration::from_secs(a.num("timeout", 30));
+    // tables named in --idonly are big: only their ids are read (proj), the specification compares id sets
+    let idonly: Vec<String> = a.str("idonly", "").split(',').filter(|s| !s.is_empty()).map(String::from).collect();
     let read = |e: &mut crate::eng::Eng| -> Vec<Value> {
-        tables.iter().map(|t| { let o = e.exec(0, &format!("SELECT * FROM {t}")); json!({"name": t, "out": crate::runner::out_json(&o)}) }).collect()
+        tables.iter().map(|t| {
+            let proj = idonly.contains(t);
+            let o = e.exec(0, &if proj { format!("SELECT {t}.id FROM {t}") } else { format!("SELECT * FROM {t}") });
+            json!({"name": t, "proj": proj, "out": crate::runner::out_json(&o)})
+        }).collect()
     };
     // the image itself, and (nested crash points, C08) every write recovery makes while the database opens
     let mut image: HashMap<String, Vec<u8>> = HashMap::new();
@@ -79,7 +85,9 @@ pub fn child(a: &Args) -> i32 {
         let again = e.open(&db, default_cfg());
         out["again_open"] = again.json();
         if again.is_ok() {
-            out["again"] = json!(read(&mut e));
+            let again_tables = read(&mut e);
+            out["again_same"] = json!(json!(again_tables) == json!(first));
+            out["again"] = if json!(again_tables) == json!(first) { json!([]) } else { json!(again_tables) };
             let p1 = e.exec(0, "CREATE TABLE zz_probe (id INT, v INT)");
             let p2 = e.exec(0, "INSERT INTO zz_probe (id, v) VALUES (1, 2)");
             let p3 = e.exec(0, "SELECT id, v FROM zz_probe");
@@ -165,8 +173,9 @@ pub fn main(a: &Args) -> i32 {
     let seed = a.num("seed", 1);
     let histories = a.num("segments", 4);
     let max_points = a.num("points", 120) as usize;
-    let nested_n = a.num("nested", 4);
+    let nested_n = a.num("nested", 8);
     let unsafe_ckpt = a.flag("unsafe-checkpoints"); // witness mode for the checkpoint findings
+    let steal = a.flag("steal");
     let dir = PathBuf::from(a.str("dir", "/verif/work/crash"));
     let out = PathBuf::from(a.str("out", "/verif/work/crash-trace.ndjson"));
     let exe = std::env::current_exe().unwrap();
@@ -180,22 +189,50 @@ pub fn main(a: &Args) -> i32 {
         let mut run = Runner::new(dir.join("live"), Trace::create(&dir.join("scratch.ndjson")));
         run.t.buf = Some(vec![]);
         let mut marks: Vec<Mark> = vec![];
-        run.reset(default_cfg());
-        let checkpoint_share = [0, 5, 12][(seed as usize + h as usize) % 3];
+        let profile = (seed as usize + 2 * h as usize) % 5;   // 0,1: mixed; 2: many short rolled-back transactions; 3: DDL (create / drop / re-create); 4: fat rows, a log of several blocks
+        // --steal: witness mode for the finding StealNotCrashSafe
+        let small = steal;
+        // fat rows (~200 bytes, 8-20 per statement): the log outgrows its first block (40 KiB), forces span block boundaries,
+        // checkpoints truncate a log that has data blocks
+        let fat_tab = small || profile == 4;
+        // small: 16 frames of 4 KiB against a table of ~30 pages - dirty pages of open transactions are evicted (stolen) all the time
+        run.reset(if small { crate::eng::cfg(4096, 16, 2, 3, 2) } else { default_cfg() });
+        let checkpoint_share = if profile == 4 { 12 } else { [0, 5, 12][(seed as usize + h as usize) % 3] };
         let two = r.random_bool(0.5);
         let u = r.random_bool(0.5);
         let mut tabs: Vec<Tab> = vec![rand_table(&mut r, "t1", u)];
+        if fat_tab {
+            tabs[0].def.cols = vec![ColDef { name: "id".into(), ty: Ty::Int, nn: false }, ColDef { name: "c1".into(), ty: Ty::Int, nn: false }, ColDef { name: "c2".into(), ty: Ty::Text, nn: true }];
+            tabs[0].def.uniq = vec![];
+        }
         if two { tabs.push(rand_table(&mut r, "t2", false)); }
         for t in tabs.iter_mut() { t.updatable = false; }
         let no_tx = |_: &Runner| None;
         let last_auto = |run: &Runner| Some(run.next_tx - 1);
         for t in tabs.clone() { call(&mut run, &tap, &mut marks, "create", last_auto, |run| run.auto(&Stmt::Create(t.def.clone()))); }
-        let profile = (seed as usize + 2 * h as usize) % 4;   // 0,1: mixed; 2: many short rolled-back transactions; 3: DDL (create / drop / re-create)
+        // fat rows: ~200 bytes each, n per statement
+        let fat = |r: &mut R, t: &mut Tab, part: i64, n: usize| -> Stmt {
+            let mut rows = vec![];
+            for _ in 0..n {
+                while t.next_id.rem_euclid(4) != part { t.next_id += 1; }
+                rows.push(vec![V::Int(t.next_id), V::Int(r.random_range(-3..12)), V::Text(format!("{}{}", "x".repeat(180), t.next_id % 7))]);
+                t.next_id += 1;
+            }
+            Stmt::Insert { tbl: "t1".into(), cols: vec![(1, "id".into()), (2, "c1".into()), (3, "c2".into())], rows }
+        };
+        if fat_tab {
+            for _ in 0..(if small { r.random_range(22..30) } else { r.random_range(8..14) }) {
+                let st = fat(&mut r, &mut tabs[0], 0, 20);
+                if call(&mut run, &tap, &mut marks, "auto", last_auto, |run| run.auto(&st)).is_ok() { note_insert(&mut tabs[0], &st); }
+            }
+            if small || r.random_bool(0.5) { call(&mut run, &tap, &mut marks, "flush", no_tx, |run| run.flush()); }
+        }
         let n = if profile == 2 { r.random_range(30..60) } else { r.random_range(12..32) };
         let mut open: Vec<u32> = vec![];
         let mut extra_live: Vec<Tab> = vec![];
         let mut extra_names: Vec<String> = vec![];
         let mut pending: HashMap<u32, Vec<(usize, Stmt)>> = HashMap::new();
+        let mut session_tables = 0;
         for _ in 0..n {
             if run.hung { break; }
             let ti = r.random_range(0..tabs.len());
@@ -217,7 +254,7 @@ pub fn main(a: &Args) -> i32 {
                 }
                 continue;
             }
-            if profile == 3 && c >= 60 && c < 90 {
+            if (profile == 3 && c >= 60 && c < 90) || (profile == 4 && c >= 75 && c < 90) {
                 // DDL: a table comes, gets rows, goes, and its name comes back
                 if extra_live.is_empty() {
                     let name = ["x1", "x2"][r.random_range(0..2)];
@@ -244,7 +281,7 @@ pub fn main(a: &Args) -> i32 {
             if (c < checkpoint_share && open.iter().all(|s| pending.get(s).map(|p| p.is_empty()).unwrap_or(true))) || (unsafe_ckpt && c < 15) {
                 call(&mut run, &tap, &mut marks, "flush", no_tx, |run| run.flush());
             } else if c < 45 {
-                let s = rand_insert(&mut r, &mut tabs[ti], 0, 4, false);
+                let s = if fat_tab && ti == 0 { fat(&mut r, &mut tabs[0], 0, 8) } else { rand_insert(&mut r, &mut tabs[ti], 0, 4, false) };
                 let o = call(&mut run, &tap, &mut marks, "auto", last_auto, |run| run.auto(&s));
                 if o.is_ok() { note_insert(&mut tabs[ti], &s); }
             } else if c < 55 {
@@ -253,9 +290,25 @@ pub fn main(a: &Args) -> i32 {
             } else if c < 65 && open.len() < 2 {
                 let s = if open.contains(&1) { 2 } else { 1 };
                 if call(&mut run, &tap, &mut marks, "begin", no_tx, |run| run.begin(s)).is_ok() { open.push(s); pending.insert(s, vec![]); }
+            } else if c < 85 && !open.is_empty() && r.random_range(0..3) == 0 && session_tables < 2 {
+                // a session creates a table and fills it: if the crash finds the session unfinished, neither may remain
+                // (and recovery must cope with a CREATE that is in the log but never reached the file)
+                let s = *pick(&mut r, &open);
+                session_tables += 1;
+                let name = format!("y{session_tables}");
+                let mut t = rand_table(&mut r, &name, false);
+                t.updatable = false;
+                let cr = Stmt::Create(t.def.clone());
+                if call(&mut run, &tap, &mut marks, "stmt", no_tx, |run| run.stmt(s, &cr)).is_ok() {
+                    extra_names.push(name);
+                    pending.get_mut(&s).unwrap().push((0, cr));
+                    let st = rand_insert(&mut r, &mut t, 0, 4, false);
+                    call(&mut run, &tap, &mut marks, "stmt", no_tx, |run| run.stmt(s, &st));
+                }
             } else if c < 85 && !open.is_empty() {
                 let s = *pick(&mut r, &open);
-                let st = if r.random_bool(0.7) { rand_insert(&mut r, &mut tabs[ti], s as i64, 4, false) } else { rand_delete(&mut r, &tabs[ti], s as i64, 4) };
+                let st = if fat_tab && ti == 0 { if r.random_bool(0.6) { fat(&mut r, &mut tabs[0], s as i64, 12) } else { rand_delete(&mut r, &tabs[0], s as i64, 4) } }
+                    else if r.random_bool(0.7) { rand_insert(&mut r, &mut tabs[ti], s as i64, 4, false) } else { rand_delete(&mut r, &tabs[ti], s as i64, 4) };
                 let o = call(&mut run, &tap, &mut marks, "stmt", no_tx, |run| run.stmt(s, &st));
                 if o.is_ok() { pending.get_mut(&s).unwrap().push((ti, st)); }
             } else if !open.is_empty() {
@@ -307,7 +360,7 @@ pub fn main(a: &Args) -> i32 {
             hs.push(std::thread::spawn(move || loop {
                 let job = jobs.lock().unwrap().pop();
                 let Some((k, d)) = job else { break };
-                let mut ch = std::process::Command::new(&exe).args(["reopen-child", "--db", d.join("db.axm").to_str().unwrap(), "--tables", &names.join(","), "--nested", &nested_n.to_string()])
+                let mut ch = std::process::Command::new(&exe).args(["reopen-child", "--db", d.join("db.axm").to_str().unwrap(), "--tables", &names.join(","), "--nested", &nested_n.to_string(), "--idonly", if fat_tab { "t1" } else { "" }])
                     .stdout(std::process::Stdio::piped()).stderr(std::process::Stdio::null()).spawn().expect("spawn child");
                 let t0 = std::time::Instant::now();
                 let v = loop {
@@ -348,6 +401,7 @@ pub fn main(a: &Args) -> i32 {
             ev["tables"] = v.get("tables").cloned().unwrap_or(json!([]));
             ev["again_open"] = v.get("again_open").cloned().unwrap_or(json!({"k": "unit"}));
             ev["again"] = v.get("again").cloned().unwrap_or(json!([]));
+            ev["again_same"] = v.get("again_same").cloned().unwrap_or(json!(false));
             ev["probe"] = v.get("probe").cloned().unwrap_or(json!([]));
             ev["sound"] = v.get("sound").cloned().unwrap_or(json!([]));
             ev["nested"] = v.get("nested").cloned().unwrap_or(json!([]));
